@@ -12,7 +12,8 @@ use serde_json::{json, Map, Value};
 use std::cell::RefCell;
 use std::rc::Rc;
 
-const ALGS: &[&str] = &["", "EdDSA", "ES256", "ES256K", "HS256"];
+/// 1..4 registered JWS names; 5..7 values a JWK may pin that are NOT JWS algorithm names (a key pinned to one of them must verify nothing)
+const ALGS: &[&str] = &["", "EdDSA", "ES256", "ES256K", "HS256", "ECDH-ES", "eddsa", ""];
 fn alg_id(a: JwsAlgorithm) -> i64 { ALGS.iter().position(|n| *n == a.name()).map(|i| i as i64).unwrap_or(9) }
 
 #[derive(Clone, Debug)]
@@ -155,6 +156,7 @@ pub fn exec(case: &[i64]) -> Outcome {
   let mut v = &case[1..];
   if kind == 7 { return crate::jws_storage::exec(case); }
   if kind == 8 { return crate::jws_storage::exec_bitflip(case); }
+  if kind == 9 { return exec_ecdsa(case); }
   let tab = take_table(&mut v);
   let hdr = |i: Option<usize>| -> Option<&JwsHeader> { i.and_then(|i| tab.get(i)).and_then(|e| e.value.as_ref()) };
   let known_custom = tab.iter().any(|e| e.h.as_ref().and_then(|h| h.custom.as_ref()).map(|k| k.iter().any(|i| *i < 14)).unwrap_or(false));
@@ -306,15 +308,39 @@ const HEADER_TEXTS: &[&str] = &[
 ];
 const PAYLOADS: &[&[u8]] = &[b"{\"iss\":\"joe\"}", b"hello", b"he.llo", b"\x00\xff\x10", b"", b"aGVsbG8", b"he said \"hi\"\\"];
 
+/// kind 9: real ES256 / ES256K signatures through EcDSAJwsVerifier.  case = [9, key curve (0 P-256, 1 secp256k1), signing curve, header alg (2 ES256, 3 ES256K), key pin (0 none, 2, 3), serialisation (0 compact, 1 flattened)]
+/// verified iff the header's algorithm is the one of the key's curve, the signature was made with that key, and the pin (if any) equals the header's algorithm
+fn exec_ecdsa(case: &[i64]) -> Outcome {
+  use p256::ecdsa::signature::Signer;
+  let (kc, sc, halg, pin, ser) = (case[1], case[2], case[3], case[4], case[5]);
+  let hdr = format!(r#"{{"alg":"{}"}}"#, ALGS[halg as usize]);
+  let si = format!("{}.{}", identity_jose::jwu::encode_b64(hdr.as_bytes()), identity_jose::jwu::encode_b64(b"{\"iss\":\"x\"}"));
+  let secret = [7u8; 32];
+  let p_sk = p256::ecdsa::SigningKey::from_slice(&secret).unwrap(); let k_sk = k256::ecdsa::SigningKey::from_slice(&secret).unwrap();
+  let sig: Vec<u8> = if sc == 0 { let s: p256::ecdsa::Signature = p_sk.sign(si.as_bytes()); s.to_bytes().to_vec() } else { let s: k256::ecdsa::Signature = k_sk.sign(si.as_bytes()); s.to_bytes().to_vec() };
+  let (x, y, crv) = if kc == 0 { let p = p_sk.verifying_key().to_encoded_point(false); (p.x().unwrap().to_vec(), p.y().unwrap().to_vec(), "P-256") } else { let p = k_sk.verifying_key().to_encoded_point(false); (p.x().unwrap().to_vec(), p.y().unwrap().to_vec(), "secp256k1") };
+  let mut jwk: Jwk = serde_json::from_value(json!({"kty": "EC", "crv": crv, "x": identity_jose::jwu::encode_b64(&x), "y": identity_jose::jwu::encode_b64(&y)})).unwrap();
+  if pin > 0 { jwk.set_alg(ALGS[pin as usize]); }
+  let dec = Decoder::new(); let verifier = identity_ecdsa_verifier::EcDSAJwsVerifier::default();
+  let tok: Vec<u8> = if ser == 0 { format!("{}.{}", si, identity_jose::jwu::encode_b64(&sig)).into_bytes() } else { let mut parts = si.split('.'); serde_json::to_vec(&json!({"protected": parts.next().unwrap(), "payload": parts.next().unwrap(), "signature": identity_jose::jwu::encode_b64(&sig)})).unwrap() };
+  let verified = if ser == 0 { dec.decode_compact_serialization(&tok, None).and_then(|it| it.verify(&verifier, &jwk)).is_ok() } else { dec.decode_flattened_serialization(&tok, None).and_then(|it| it.verify(&verifier, &jwk)).is_ok() };
+  let should = kc == sc && ((kc == 0 && halg == 2) || (kc == 1 && halg == 3)) && (pin == 0 || pin == halg);
+  let mut o = Outcome::new(vec![]).class(if verified { "ecdsa-verified" } else { "ecdsa-rejected" });
+  if verified != should { o = o.fail(if verified { "a real ECDSA token was reported verified although the header's algorithm, the key's curve, the signing key or the key's pinned algorithm do not match" } else { "a correctly signed ECDSA token was rejected" }); }
+  o
+}
+
 pub fn gen_c01(rng: &mut Rng, thorough: bool, sink: &mut Sink) {
+  for kc in 0..2 { for sc in 0..2 { for halg in [2i64, 3] { for pin in [0i64, 2, 3] { for ser in 0..2 { sink.case(vec![9, kc, sc, halg, pin, ser], "ecdsa-real-keys"); } } } } }
   let sig = b"signature-bytes!";
   // (a) compact: header text x payload x form x attached/detached x key alg pin x verifier answer
   for ht in HEADER_TEXTS { let e = entry_from_json(ht.as_bytes()); for pl in PAYLOADS { for form in 0..2 { for detached in 0..3 {
     let body: Vec<u8> = if form == 0 { b64(pl) } else { pl.to_vec() };
     let (seg, det): (Vec<u8>, Option<Vec<u8>>) = match detached { 0 => (body.clone(), None), 1 => (vec![], Some(body.clone())), _ => (body.clone(), Some(body.clone())) };
     let mut tok = b64(ht.as_bytes()); tok.push(b'.'); tok.extend(&seg); tok.push(b'.'); tok.extend(b64(sig));
-    for kalg in [-1i64, 1, 2] { for vbit in 0..2 {
-      if (kalg == 2 || vbit == 0) && (form == 1 && detached == 2) { continue; }
+    for kalg in [-1i64, 1, 2, 5, 6, 7] { for vbit in 0..2 {
+      if (kalg >= 2 || vbit == 0) && (form == 1 && detached == 2) { continue; }
+      if kalg >= 5 && (vbit == 0 || detached != 0) { continue; }
       let mut c = tabled(1, &[e.clone()]); put_bytes(&mut c, &tok); put_opt(&mut c, det.as_deref()); c.push(kalg); c.push(vbit); sink.case(c, "compact-table");
     } }
   } } } }
